@@ -199,7 +199,7 @@ func sortedCopy(a []string) []string {
 func TestPackagings(t *testing.T) {
 	r := evid.R()
 	ctx := context.Background()
-	r.Check(t, r.Scale(28, 700), 3, func(t *rapid.T) {
+	r.Check(t, r.Scale(28, 560), 3, func(t *rapid.T) {
 		src, _ := genSrc(t, false)
 		c := &PkgCase{Kind: "packaging", Src: src}
 		perm := rapid.Permutation(packagingKinds).Draw(t, "kinds")
